@@ -89,3 +89,45 @@ theorem addedOnly_dict {was now : Dict} (h : addedOnly (.dict was) (.dict now) =
   simpa using this
 
 end Btc.C11
+
+namespace Btc.C11
+
+theorem filter_const_none (n : Nat) (f : Nat → Option Int × Option Int) (h : ∀ i, f i = (none, none)) :
+    ((List.range n).map f).filter (fun p => !(p.1.isNone && p.2.isNone)) = [] := by
+  rw [List.filter_eq_nil_iff]
+  intro a ha
+  obtain ⟨i, _, rfl⟩ := List.mem_map.mp ha
+  simp [h i]
+
+/-- `to_v0` writes the computed lock time where version 0 keeps it, so the transaction is the same one. -/
+theorem toV0_tx {p q : Psbt} (h : toV0 p = .ok q) (b : Bool) : unsignedTx q b = unsignedTx p b := by
+  unfold toV0 at h
+  cases hl : lockTime p with
+  | error e => rw [hl] at h; cases h
+  | ok lt =>
+    rw [hl] at h
+    cases h
+    have hreq : ∀ i, ((v0Slot p lt ⟨Sec.inp, i, "required_height_lock_time"⟩).int?,
+        (v0Slot p lt ⟨Sec.inp, i, "required_time_lock_time"⟩).int?) = ((none : Option Int), (none : Option Int)) := by
+      intro i
+      simp [v0Slot, fallbackLoc, modLoc, isRequiredLock, Slot.int?]
+    have hlock : lockTime { p with version := Gen.Combine.PSBT_V0, slot := v0Slot p lt } = .ok lt := by
+      unfold lockTime lockTimeOf requiredOf
+      simp only
+      rw [filter_const_none _ _ hreq]
+      simp [v0Slot, fallbackLoc, Slot.int?]
+    have e1 : ∀ i, txIn { p with version := Gen.Combine.PSBT_V0, slot := v0Slot p lt } b i = txIn p b i := by
+      intro i; simp [txIn, v0Slot, fallbackLoc, modLoc, isRequiredLock]
+    have e2 : ∀ i, txOut { p with version := Gen.Combine.PSBT_V0, slot := v0Slot p lt } b i = txOut p b i := by
+      intro i; simp [txOut, v0Slot, fallbackLoc, modLoc, isRequiredLock]
+    have e3 : v0Slot p lt ⟨Sec.glob, 0, "tx_version"⟩ = p.slot ⟨Sec.glob, 0, "tx_version"⟩ := by
+      simp [v0Slot, fallbackLoc, modLoc, isRequiredLock]
+    unfold unsignedTx
+    rw [hlock, hl]
+    simp only [e3]
+    congr 2
+    all_goals first
+      | exact List.map_congr_left (fun i _ => e1 i)
+      | exact List.map_congr_left (fun i _ => e2 i)
+
+end Btc.C11
